@@ -1,1 +1,78 @@
-//! Scripted peers speaking the reference codec.
+//! Scripted peers speaking the reference codec (never the code under test).
+
+use super::wire::Wire;
+use std::os::fd::OwnedFd;
+use vref::msg::{parse, peek_len, Msg, Parsed};
+
+/// The far end of a `Wire`: parses what zbus wrote (reference framing and
+/// parser) and stages reference-marshalled messages for zbus to read.
+pub struct RawPeer {
+    pub wire: Wire,
+    /// how many captured write records have been consumed
+    recs_seen: usize,
+    buf: Vec<u8>,
+    /// absolute stream offset of buf[0]
+    pub stream_pos: usize,
+    pub next_serial: u32,
+    pub received: Vec<Parsed>,
+    pub parse_errors: Vec<String>,
+    /// total bytes staged towards zbus so far (inbound stream offset of the next message)
+    pub staged_bytes: usize,
+}
+
+impl RawPeer {
+    pub fn new(wire: &Wire) -> RawPeer {
+        RawPeer { wire: wire.clone(), recs_seen: 0, buf: Vec::new(), stream_pos: 0, next_serial: 1000, received: Vec::new(), parse_errors: Vec::new(), staged_bytes: 0 }
+    }
+
+    /// Parse whatever complete messages zbus has written since the last call.
+    pub fn pump(&mut self) -> Vec<Parsed> {
+        {
+            let w = self.wire.lock();
+            for r in &w.written[self.recs_seen..] {
+                self.buf.extend_from_slice(&r.bytes);
+            }
+            self.recs_seen = w.written.len();
+        }
+        let mut out = Vec::new();
+        loop {
+            if self.buf.len() < 16 {
+                break;
+            }
+            let n = match peek_len(&self.buf) {
+                Ok(n) => n,
+                Err(e) => {
+                    self.parse_errors.push(format!("framing: {e}"));
+                    self.buf.clear();
+                    break;
+                }
+            };
+            if self.buf.len() < n {
+                break;
+            }
+            let bytes: Vec<u8> = self.buf.drain(..n).collect();
+            self.stream_pos += n;
+            match parse(&bytes, None) {
+                Ok(p) => {
+                    self.received.push(p.clone());
+                    out.push(p);
+                }
+                Err(e) => self.parse_errors.push(format!("message: {e}")),
+            }
+        }
+        out
+    }
+
+    pub fn serial(&mut self) -> u32 {
+        self.next_serial += 1;
+        self.next_serial
+    }
+
+    /// Stage a message for zbus (delivered when NET releases it).
+    pub fn send(&mut self, m: &Msg, fds: Vec<OwnedFd>, chunk_sizes: &[usize]) -> usize {
+        let bytes = m.marshal();
+        self.wire.stage(&bytes, fds, chunk_sizes);
+        self.staged_bytes += bytes.len();
+        self.staged_bytes
+    }
+}
